@@ -40,6 +40,23 @@ def main():
             return {'t': 'L', 'ks': [], 'vs': [], 'nx': 0}
         return dict(p['kids'][0], nx=0)
 
+    def setify(p):
+        # a mapping-valued dump replayed on a set: values are not there
+        if not is_set:
+            return p
+        if p['t'] == 'L':
+            return dict(p, vs=[1] * len(p['ks']))
+        return dict(p, kids=[setify(c) for c in p['kids']])
+
+    def setify_res(op, r):
+        if not is_set:
+            return r
+        if r[0] == 'v' and op in ('setdefault', 'pop'):
+            return ['v', 1]
+        if r[0] == 'kv':
+            return ['kv', r[1], 1]
+        return r
+
     def realproj(t):
         if kind == 'tree':
             return P.proj(t, emb, is_set)
@@ -54,20 +71,21 @@ def main():
         counts['steps'] += len(path) + 1
         if 'check_from' in flags:
             rp = realproj(t)
-            want = tr['from'] if kind == 'tree' else model_leaf(tr['from'])
+            want = setify(tr['from'] if kind == 'tree' else model_leaf(tr['from']))
             if rp != want:
                 mism.append(dict(kind='from-state', ti=ti, act=tr['act'], model=want, real=rp))
                 continue
         var = variant(ti, 9999)
         r = apply(t, emb, tr['act'], var)
         counts['replayed'] += 1
-        want = tr['to'] if kind == 'tree' else model_leaf(tr['to'])
+        want = setify(tr['to'] if kind == 'tree' else model_leaf(tr['to']))
         rp = realproj(t)
+        wres = setify_res(tr['act']['op'], tr['res'])
         where = dict(fam=fam, impl=impl, kind=kind, is_set=is_set, emb=job.get('emb', 'mid'),
                      sizes=[job['leaf'], job['internal']], ti=ti, variant=var,
                      path=[payloads[pi]['act'] for pi in path], act=tr['act'])
-        if r != tr['res']:
-            mism.append(dict(where, kind='result', model=tr['res'], real=r))
+        if r != wres:
+            mism.append(dict(where, kind='result', model=wres, real=r))
         if rp != want:
             mism.append(dict(where, kind='structure', model=want, real=rp))
         if 'observe' in flags:
